@@ -48,6 +48,7 @@ type Task struct {
 	nameH  uint32
 	picks  uint32
 	starve int // consecutive scheduling steps this task was ready but not picked
+	parkUntil int // not offered to the scheduler before this step (long preemption)
 }
 
 func (t *Task) st() state      { return t.state.Load() }
@@ -63,6 +64,13 @@ type Options struct {
 	// advances by up to StallMax.
 	StallPermille int
 	StallMax      time.Duration
+	// ParkPermille > 0 enables long preemptions: at a scheduling point the
+	// running task is, with this probability, left out of the ready set for
+	// the next 8 / 32 / 128 / 400 scheduling steps (or until nothing else is
+	// runnable). A uniform or priority-based choice among ready tasks almost
+	// never keeps one task off the CPU for the hundreds of steps another
+	// component needs to get through a narrow window.
+	ParkPermille int
 	Log           bool // keep the event log
 	MaxLog        int
 	RotateMaps    bool // permute canonical map iteration order from the stream
@@ -89,6 +97,7 @@ type Sim struct {
 	Branching int // task decisions with >= 2 ready tasks
 	Stalls    int
 	Forced    int    // picks forced by the fairness bound
+	Parks     int    // long preemptions injected (ParkPermille)
 	Hash      uint64 // hash of the schedule (task name + ordinal at every branching decision)
 	seq       uint64
 	start     time.Time
@@ -228,6 +237,12 @@ func Yield() {
 		s.dying()
 	}
 	t := s.cur
+	if s.opts.ParkPermille > 0 {
+		if v := s.St.Biased(5, 1000-s.opts.ParkPermille, "park"); v > 0 {
+			t.parkUntil = s.Steps + []int{0, 8, 32, 128, 400}[v]
+			s.Parks++
+		}
+	}
 	t.set(stReady)
 	s.sched <- struct{}{}
 	s.park(t)
@@ -676,11 +691,25 @@ func (s *Sim) teardown() {
 }
 
 func (s *Sim) collect() (ready []*Task, alive, external int) {
+	var parked *Task
+	defer func() {
+		// nothing else runnable: the parked task with the earliest deadline runs
+		if len(ready) == 0 && parked != nil {
+			parked.parkUntil = 0
+			ready = append(ready, parked)
+		}
+	}()
 	for _, t := range s.tasks {
 		switch t.st() {
 		case stReady:
-			ready = append(ready, t)
 			alive++
+			if t.parkUntil > s.Steps {
+				if parked == nil || t.parkUntil < parked.parkUntil {
+					parked = t
+				}
+				continue
+			}
+			ready = append(ready, t)
 		case stExternal:
 			if !t.daemon {
 				alive++
